@@ -86,7 +86,10 @@ type Op struct {
 	Vars   []VarSetting `json:"vars,omitempty"`
 	Vars2  []VarSetting `json:"vars2,omitempty"` // train: N setters alternating between Vars and Vars2 (or Ppem and Ppem+1)
 	Coords []float32    `json:"coords,omitempty"`
-	Ppem   [2]uint16    `json:"ppem,omitempty"`
+	// InPlace: SetCoords is given the slice of the previous SetCoords call, updated in place
+	// (an application animating an axis without allocating)
+	InPlace bool      `json:"in_place,omitempty"`
+	Ppem    [2]uint16 `json:"ppem,omitempty"`
 	// face queries
 	Query  string `json:"query,omitempty"`
 	GID    uint32 `json:"gid,omitempty"`
@@ -120,6 +123,7 @@ type faceRT struct {
 	kind   string       // "", "vars", "coords"
 	ppem   [2]uint16
 	ppemOn bool
+	own    []tables.Coord // the caller-side slice last given to SetCoords
 }
 
 func toVariations(vs []VarSetting) []font.Variation {
@@ -163,9 +167,15 @@ func (f *faceRT) setVars(vs []VarSetting) {
 	f.face.SetVariations(toVariations(vs))
 }
 
-func (f *faceRT) setCoords(cs []float32) {
+func (f *faceRT) setCoords(cs []float32, inPlace bool) {
 	f.kind, f.coords, f.vars = "coords", cs, nil
-	f.face.SetCoords(toCoords(cs))
+	nc := toCoords(cs)
+	if inPlace && len(f.own) == len(nc) && len(nc) != 0 {
+		copy(f.own, nc)
+	} else {
+		f.own = nc
+	}
+	f.face.SetCoords(f.own)
 }
 
 func (f *faceRT) setPpem(p [2]uint16) {
@@ -191,7 +201,7 @@ func buildFaces(w *Witness) ([]*faceRT, bool) {
 		if len(fs.Vars) > 0 {
 			rt.setVars(fs.Vars)
 		} else if len(fs.Coords) > 0 {
-			rt.setCoords(fs.Coords)
+			rt.setCoords(fs.Coords, false)
 		}
 		if fs.Ppem != [2]uint16{} {
 			rt.setPpem(fs.Ppem)
